@@ -805,6 +805,9 @@ def write_ev(prop, tier, seed, results, samples, xcheck, build_s, wall, violatio
         # C12: the VM use-site audit (bytecode/sites.py) rides along with the Kani kernels
         cov['vm_sites'] = extra_ev['Bs'].get('coverage', {})
         assumptions = assumptions + ['VM use sites: the guard each eval_impl arm applies is classified from the text of vm/mod.rs on this run (an arm that cannot be classified is inconclusive); the full (mode, operand) matrix of every site is also rendered natively as validation']
+    if 'Lc' in extra_ev:
+        cov['template_store'] = extra_ev['Lc'].get('coverage', {})
+        assumptions = assumptions + ['template store (fast reload): the store operations are translated from the text of loader.rs by store/engine_l.py; the compiler is a symbolic predicate; names/sources range over small finite sets; histories up to coverage.template_store.history_bound steps']
     if 'L' in extra_ev:
         kcov = cov
         cov = dict(extra_ev['L'].get('coverage', {}))
